@@ -50,15 +50,22 @@ def canon_node(n):
     return [var, [[r, canon_node(t) if isinstance(t, tuple) else t] for r, t in bs]]
 
 
+_HANGS = [0]     # per worker process: once a few inputs hang, later ones get a short budget
+
+
+def _budget(seconds):
+    return seconds if _HANGS[0] < 3 else 0.3
+
+
 def _call(fn, *args, seconds=5):
     import penman
+    seconds = _budget(seconds)
     try:
         return ('ok', timed(fn, *args, seconds=seconds))
     except penman.DecodeError as e:
         return ('err', e.lineno, e.offset)
-    except Timeout:
-        if seconds < 60:      # a stalled worker on a loaded machine is not a hang: confirm with a long limit
-            return _call(fn, *args, seconds=60)
+    except Timeout:           # common.timed budgets CPU time, so machine load cannot fake a hang
+        _HANGS[0] += 1
         return ('exc', 'Timeout')
     except RecursionError:
         return ('exc', 'RecursionError')
@@ -95,11 +102,9 @@ def observe(s):
     if p[0] == 'ok':
         p = ('ok', canon_node(p[1].node), dict(p[1].metadata))
     try:
-        try:
-            ip = timed(_iterparse, s, seconds=5)
-        except Timeout:       # confirm with a long limit (see _call)
-            ip = timed(_iterparse, s, seconds=60)
+        ip = timed(_iterparse, s, seconds=_budget(5))
     except Timeout:
+        _HANGS[0] += 1
         ip = ('exc', 'Timeout')
     except RecursionError:
         ip = ('exc', 'RecursionError')
